@@ -414,6 +414,7 @@ class TrackSolver:
     def __init__(self):
         self.tracked = []          # (name, term)
         self.plain = []
+        self.cloned_after = 0      # the first `cloned_after` tracked assertions were made before the solver was cloned
 
     def assertions(self):
         return [_Impl(_Lit(n), t) for n, t in self.tracked]
@@ -430,7 +431,9 @@ class TrackSolver:
         c = cur()
         k = c.choose([True] * (1 << len(self.tracked)), "core-subset")
         self.last_core = [t for i, (n, t) in enumerate(self.tracked) if k >> i & 1]
-        return [_Lit(n) for i, (n, _) in enumerate(self.tracked) if k >> i & 1]
+        # observed Z3 behaviour (4.13): for an assertion that was tracked BEFORE the solver was cloned with translate() - what
+        # FullFrontend._get_solver does for a branch - unsat_core() reports the asserted constraint itself, not its tracking literal
+        return [(t if i < self.cloned_after else _Lit(n)) for i, (n, t) in enumerate(self.tracked) if k >> i & 1]
 
 
 def ob_tracked_assertions(tier="quick"):
@@ -480,6 +483,8 @@ def ob_tracked_assertions(tier="quick"):
                 c.fail("BackendZ3._add[track]/nothing-else-is-asserted", f"{a!r} was asserted but never passed")
         if len({n for n, _ in s.tracked}) != len(s.tracked):
             c.fail("BackendZ3._add[track]/names-unique", "two tracked assertions share a name")
+        if c.choose([True, True], "solver-was-cloned-in-between") == 1:
+            s.cloned_after = len(pre)
         try:
             r = core(b, s)
         except (PathEnd, Undecided):
@@ -489,10 +494,36 @@ def ob_tracked_assertions(tier="quick"):
             return "raised"
         want = s.last_core
         if not (len(r) == len(want) and all(a is b_ for a, b_ in zip(r, want))):
-            c.fail("BackendZ3._unsat_core/the-terms-of-the-reported-literals", f"Z3 reports the literals of {want!r}; _unsat_core returned {r!r}", kind="C16")
+            c.fail("BackendZ3._unsat_core/the-terms-of-the-reported-literals", f"Z3's core consists of {want!r} (cloned after the first {s.cloned_after}); _unsat_core returned {r!r}: "
+                       "an incomplete core is a satisfiable subset", kind="C16")
         return f"tracked:{len(s.tracked)}"
 
-    return explore(body, {"budget_s": 120, "replay": replay_tracked_collision})
+    return explore(body, {"budget_s": 120, "replay": replay_tracked})
+
+
+def replay_tracked(failure=None):
+    if "_unsat_core" in str((failure or {}).get("label")):
+        return replay_core_after_clone()
+    return replay_tracked_collision(failure)
+
+
+def replay_core_after_clone(failure=None):
+    """native: a tracked solver is queried, branched, the branch gets a contradicting constraint: its core must be unsatisfiable"""
+    import claripy
+    a = claripy.BVS("kf_clone_a", 4, explicit_name=True)
+    c1, c2 = claripy.ULT(a, 3), claripy.UGT(a, 5)
+    s = claripy.Solver(track=True)
+    s.add(c1)
+    s.satisfiable()
+    b = s.branch()
+    b.add(c2)
+    sat = b.satisfiable()
+    core = list(b.unsat_core())
+    chk = claripy.Solver()
+    chk.add(core)
+    bad = (not sat) and (not core or chk.satisfiable())
+    return {"reproduced": bool(bad), "text": f"Solver(track=True): add({c1!r}); satisfiable(); b = branch(); b.add({c2!r}); b.satisfiable() = {sat}; b.unsat_core() = {core!r}"
+            + (" - a satisfiable set" if bad else "")}
 
 
 def replay_tracked_collision(failure=None):
